@@ -96,7 +96,7 @@ impl Prop for C20 {
         }
     }
     fn rule(&self) -> &'static str {
-        "One case = an App with a shutdown receiver (unbounded or rendezvous channel), a pool of 1..8 threads, a bind address (127.0.0.1 / 0.0.0.0 / [::], with the strict-unspecified-address knob), 0..16 client connections each scripted to be in one of {just connected, idle keep-alive, half-sent request, handler running 5 ms / 2 s of virtual time, 150 KB response being written to a 512-byte-window reader, WebSocket open, plain request} when the signal is sent at a chosen virtual instant (before run is called, before the first connection, between or concurrently with connects, with the pool fully occupied), under one seeded schedule; in two cases of five the application has a connection condition that refuses connections when the signal comes (drain mode switched on just before the signal, or a connection limit that the scripted clients have used up), so the server's own wake-up connection is not admitted either. Distinct = distinct (traffic-state multiset at the signal, pool size vs. connections, signal timing class, outcome); non-trivial = at least one connection open at the instant of the signal."
+        "One case = an App with a shutdown receiver (unbounded or rendezvous channel), a pool of 1..8 threads, a bind address (127.0.0.1 / 0.0.0.0 / [::], with the strict-unspecified-address knob), 0..16 (one case in forty 80..100) client connections each scripted to be in one of {just connected, idle keep-alive, half-sent request, handler running 5 ms / 2 s of virtual time, 150 KB response being written to a 512-byte-window reader, WebSocket open, plain request} when the signal is sent at a chosen virtual instant (before run is called, before the first connection, between or concurrently with connects, with the pool fully occupied), under one seeded schedule; in two cases of five the application has a connection condition that refuses connections when the signal comes (drain mode switched on just before the signal, or a connection limit that the scripted clients have used up), so the server's own wake-up connection is not admitted either. Distinct = distinct (traffic-state multiset at the signal, pool size vs. connections, signal timing class, outcome); non-trivial = at least one connection open at the instant of the signal."
     }
     fn assumptions(&self) -> Vec<String> {
         vec![
@@ -107,7 +107,7 @@ impl Prop for C20 {
         ]
     }
     fn expected_counters(&self) -> Vec<&'static str> {
-        vec!["c20.signal_before_run", "c20.signal_before_first_connection", "c20.signal_with_open_connections", "c20.pool_fully_occupied", "c20.state.idle-keepalive", "c20.state.half-request", "c20.state.handler-long", "c20.state.slow-reader", "c20.state.websocket", "c20.state.connected", "c20.bind_unspecified", "c20.rendezvous_channel", "c20.connection_condition.drain", "c20.connection_condition.limit", "c20.rebinds"]
+        vec!["c20.signal_before_run", "c20.signal_before_first_connection", "c20.signal_with_open_connections", "c20.pool_fully_occupied", "c20.state.idle-keepalive", "c20.state.half-request", "c20.state.handler-long", "c20.state.slow-reader", "c20.state.websocket", "c20.state.connected", "c20.bind_unspecified", "c20.rendezvous_channel", "c20.eighty_or_more_connections", "c20.connection_condition.drain", "c20.connection_condition.limit", "c20.rebinds"]
     }
     fn real_vs_stub(&self) -> (Vec<&'static str>, Vec<&'static str>) {
         (vec!["App::run (accept loop, AtomicBool flag, wake-up connect, unspecified_socket_to_loopback), ThreadPool::{stop, drop}, client_handler, websocket_handler"], vec!["threads, mpsc, atomics, TCP listener/backlog, virtual sleep in handlers (humsim)"])
@@ -133,6 +133,17 @@ impl Prop for C20 {
                 Conn { at_ms, state: states[rng.usize_below(states.len())].into() }
             })
             .collect();
+        // one case in forty: far more stalled connections than any pool or backlog bound (80..100
+        // that have just connected and send nothing -- a request would have to wait for a worker behind
+        // all the others, far beyond any client's patience), all open when the signal comes
+        let mut conns: Vec<Conn> = conns;
+        {
+            let mut r2 = Rng::new(humsim::rng::mix(&[run_seed(seed, "C20", idx), 0xC20_0002]));
+            if r2.chance(1, 40) {
+                let n = r2.range(80, 100) as usize;
+                conns = (0..n).map(|_| Conn { at_ms: r2.below(signal_ms.max(1)), state: "connected".into() }).collect();
+            }
+        }
         let mut sim = SimParams::draw(&mut rng, true);
         sim.rx_capacity = None;
         sim.latency_max_ns = None;
@@ -352,6 +363,9 @@ impl Prop for C20 {
         }
         if scn.rendezvous {
             rr.count("c20.rendezvous_channel", 1);
+        }
+        if scn.conns.len() >= 80 {
+            rr.count("c20.eighty_or_more_connections", 1);
         }
         if scn.condition == "drain" || scn.condition == "limit" {
             rr.count(&format!("c20.connection_condition.{}", scn.condition), 1);
